@@ -130,7 +130,7 @@ class Budget(Exception):
 
 
 class Engine:
-    def __init__(self, crate, max_depth=8, inline=None, opaque=(), assume=None, models=None, unroll=0, unroll_pred=None,
+    def __init__(self, crate, max_depth=8, inline=None, opaque=(), assume=None, models=None, unroll=0, unroll_pred=None, max_recursion=0,
                  assume_int=None, step_budget=400000):
         self.crate = crate
         self.max_depth = max_depth
@@ -139,11 +139,13 @@ class Engine:
         self.assume = assume
         self.assume_int = assume_int
         self.models = models or {}
+        self.max_recursion = max_recursion   # how many times a function may re-enter itself in place before the call is cut (opaque)
         self.unroll = unroll        # >0: bodies whose loops have a concrete trip count <= unroll are executed iteration by iteration
         self.unroll_pred = unroll_pred   # f(body path) -> bool: which bodies may be unrolled (default: all)
         if unroll:
             for k, f in ITER_MODELS.items(): self.models.setdefault(k, f)
         self.events = {}
+        self.frame_body = {}        # frame key -> Body (to type the locals of another frame reached through a reference)
         self.phi_ops = {}
         self.phi_gate = {}          # phi -> (condition term, value if true, value if false)
         self._promoted = {}
@@ -178,6 +180,7 @@ class Engine:
     # ------------------------------------------------------------------------------ core loop
     def run_body(self, body, args, state, fk, stack):
         self.visited_fns.add(body.path)
+        self.frame_body[fk] = body
         st0 = state.copy()
         for i, a in enumerate(args):
             st0.store[(fk, i + 1)] = a
@@ -739,6 +742,19 @@ class Engine:
             old = st.store.get(key, UNDEF)
             if cur[3] and old[0] != 'agg' and body is not None and key[0] is not None:
                 old = self.expand(old, body, place, cur)
+                if old[0] != 'agg' and cur[3][0][0] in ('f', 'i'):
+                    # a field written through a reference to a local of ANOTHER frame: take the
+                    # type of that local from its own body, so that the other fields are kept
+                    tb = self.frame_body.get(key[0])
+                    try:
+                        ty = tb.local_ty(key[1]) if tb is not None else None
+                        n = self.arity_of(ty) if ty is not None else None
+                        if n is not None and ty["k"] in ("tuple", "adt", "array"):
+                            kind = 'tuple' if ty["k"] == 'tuple' else ('array' if ty["k"] == 'array' else 'adt:' + ty["path"])
+                            el = 'i' if kind == 'array' else 'f'
+                            old = ('agg', kind, 0, tuple(UNDEF if old == UNDEF else self.project(old, (el, i)) for i in range(n)))
+                    except Exception:
+                        pass
             st.store[key] = self.update(old, cur[3], val, site)
         else:
             t = cur[1]
@@ -1043,7 +1059,7 @@ class Engine:
             else: v = ('deref', a)
             d = self.discr_of(v, 'isize')
             ret = d
-        if ret is None and name and cbody is not None and name not in self.opaque and name not in stack \
+        if ret is None and name and cbody is not None and name not in self.opaque and stack.count(name) <= self.max_recursion \
                 and len(stack) < self.max_depth and (self.inline_pred is None or self.inline_pred(name, len(stack))):
             sub = self.run_body(cbody, cargs, st, site, stack + (name,))
             ev.inlined = True
